@@ -60,7 +60,9 @@ func buildSite(r *rand.Rand, org *origin.Server, k int, shared []string) (seedUR
 	nassets := r.Intn(6)
 	for i := 0; i < nassets; i++ {
 		a := fmt.Sprintf("%s/a%d.png", p, i)
-		switch r.Intn(15) {
+		switch r.Intn(16) {
+		case 14: // a host that is down: the connection is refused, nothing is ever sent or captured
+			assets = append(assets, fmt.Sprintf("http://127.0.0.9:1%s/down%d.png", p, i))
 		case 13: // the body is cut short: fewer bytes than announced
 			img := okImage(k*100 + i)
 			img.CutAfter = 40
@@ -175,6 +177,8 @@ func buildSite(r *rand.Rand, org *origin.Server, k int, shared []string) (seedUR
 	case 4:
 		org.Route(h, p+"/drop", origin.Resp{Drop: true})
 		return abs(p + "/drop"), "drop"
+	case 9: // the seed's own host is down (connection refused)
+		return "http://127.0.0.9:1" + p + "/page.html", "refused"
 	case 5:
 		return "http://web.archive.org/web/2020/" + p, "excluded"
 	case 6:
